@@ -669,6 +669,31 @@ type raceReport struct {
 
 // parseRaceReports extracts the race detector's reports from a shard's stderr. The key of a
 // report is the pair of the first library frames of its two access stacks.
+// RaceKeys returns key -> report text for every race-detector report in a stderr capture
+// (key = sorted pair of the first library frames of the two conflicting accesses).
+func RaceKeys(stderr string) map[string]string {
+	out := map[string]string{}
+	for _, r := range parseRaceReports(stderr) {
+		if _, ok := out[r.key]; !ok {
+			out[r.key] = r.text
+		}
+	}
+	return out
+}
+
+// RaceBinary is the path of the -race build of this harness ("" when it was not built).
+func RaceBinary() string {
+	self, _ := os.Executable()
+	if strings.Contains(filepath.Base(self), "vcheck-race") {
+		return self
+	}
+	rb := filepath.Join(filepath.Dir(self), strings.Replace(filepath.Base(self), "vcheck", "vcheck-race", 1))
+	if _, err := os.Stat(rb); err != nil {
+		return ""
+	}
+	return rb
+}
+
 func parseRaceReports(stderr string) []raceReport {
 	var out []raceReport
 	curCase := -1
